@@ -8,6 +8,7 @@ import (
 	"sort"
 	"strconv"
 	"strings"
+	"time"
 	"unsafe"
 
 	"github.com/ohler55/ojg"
@@ -136,6 +137,13 @@ func tightSortObject(wr *Writer, n map[string]any, _ int) {
 }
 
 func (wr *Writer) tightStruct(rv reflect.Value, si *sinfo) {
+	if rv.Type() == timeType {
+		// A time in a typed slice, array or map. It is written as a time in
+		// a []any is, according to the time options, not as a struct without
+		// fields.
+		wr.appendJSON(rv.Interface(), 0)
+		return
+	}
 	if si == nil {
 		si = getSinfo(rv.Interface(), wr.OmitEmpty)
 	}
@@ -342,3 +350,5 @@ func keyString(kv reflect.Value) string {
 	}
 	return fmt.Sprint(kv.Interface())
 }
+
+var timeType = reflect.TypeOf(time.Time{})
